@@ -209,8 +209,35 @@ def run(ctx, report):
                 R3.ok(q, nontrivial=False)
     report.analysed['functions_scanned'] = nfun
 
+    # ---------------------------------------------------------------- D4 the simplifier does not modify its input
+    R4 = report.rule('C13.D4', 'the simplifier never modifies the expression it is given', floor=3)
+    from ..effects import Freshness, stores, base_name
+    from .c12 import IR_FIELDS, all_functions
+    hlp = ctx.mod('expr_helper')
+    n_st = 0
+    for cname, fn in all_functions(hlp):
+        fr = None
+        q = 'expr_helper::%s' % fn.name
+        for node, tgt, kind, attr in stores(fn):
+            if kind not in ('attr', 'delattr') or attr not in IR_FIELDS:
+                continue
+            nm, hops = base_name(tgt)
+            if nm in ('self', 'cls') and hops == 0:
+                continue
+            n_st += 1
+            fr = fr or Freshness(fn)
+            inst = '%s:%s' % (q, norm(node))
+            if fr.is_fresh_at(tgt, node):
+                R4.ok(inst, sample='%s: field %s of a node built in this function' % (inst, attr))
+            else:
+                R4.violation(inst, inst, '%s modifies field %s of a node that belongs to its input (%s): simplifying an expression changes the expression itself, so a second '
+                             'simplification, or another expression sharing the operand, gives a different result' % (fn.name, attr, norm(node)), where(hlp, node),
+                             witness='expr_simp(X ^ C) then expr_simp(C ^ X) with X = Compose(A[0:8], A[8:16], B)')
+    report.analysed['simplifier_field_stores'] = n_st
+
 
 MUTANTS = [
+    ('merge-slice-nocopy', 'miasmx/expression/expression_helper.py', '            out = v[0].copy(), v[1], v[2]\n', '            out = v[0], v[1], v[2]\n', 'C13.D4'),
     ('key-slice-stop', 'miasmx/expression/expression.py',
      'return [ 5, key_expr(e.arg), e.start, e.stop ]', 'return [ 5, key_expr(e.arg), e.start ]', 'C13.D1'),
     ('key-dup-tag', 'miasmx/expression/expression.py',
